@@ -85,6 +85,10 @@ type poolModel struct {
 	// tainted: accounts whose ledger nonce was advanced by a block this pool could not
 	// match to its own transactions (commit notifications carry hashes only)
 	tainted map[string]bool
+	// told: per account the committed nonce the pool was told about in a form it can use -
+	// commit notifications naming a transaction it held (hash known to it), or the ledger
+	// value read at (re)start. Batching below it cannot be excused by missing information.
+	told map[string]uint64
 }
 
 type poolInst struct {
@@ -104,7 +108,7 @@ type poolCfg struct {
 func newPoolInst(cfg poolCfg) *poolInst {
 	in := &poolInst{cfg: cfg, now: 1000}
 	in.m = &poolModel{ledger: map[string]uint64{}, held: map[string]map[uint64]string{}, arrival: map[string]int64{},
-		pending: map[string]uint64{}, batched: map[string]bool{}, admitted: map[string]string{}, tainted: map[string]bool{}}
+		pending: map[string]uint64{}, batched: map[string]bool{}, admitted: map[string]string{}, tainted: map[string]bool{}, told: map[string]uint64{}}
 	in.open(1)
 	return in
 }
@@ -177,7 +181,9 @@ func (in *poolInst) apply(op string) (ok bool, viol [][2]string) {
 			if m.batched[key] {
 				viol = append(viol, [2]string{"batched-twice" + sfx(t.acct), fmt.Sprintf("%s: %s (%s) batched again before it was committed", where, t.name, key)})
 			}
-			if t.nonce < m.ledger[t.acct] {
+			if t.nonce < m.told[t.acct] {
+				viol = append(viol, [2]string{"batched-below-committed-nonce|the-pool-was-told", fmt.Sprintf("%s: %s has nonce %d, but a commit notification naming a transaction the pool held (or the ledger at start-up) told it that nonce %d of the account is committed", where, t.name, t.nonce, m.told[t.acct]-1)})
+			} else if t.nonce < m.ledger[t.acct] {
 				viol = append(viol, [2]string{"batched-below-committed-nonce" + sfx(t.acct), fmt.Sprintf("%s: %s has nonce %d, the ledger's committed nonce of the account is %d", where, t.name, t.nonce, m.ledger[t.acct])})
 			}
 			per[t.acct] = append(per[t.acct], t.nonce)
@@ -398,6 +404,10 @@ func (in *poolInst) apply(op string) (ok bool, viol [][2]string) {
 		m.batched = map[string]bool{}
 		m.batches = nil
 		m.tainted = map[string]bool{} // a fresh pool reads the ledger
+		m.told = map[string]uint64{}
+		for a, n := range m.ledger {
+			m.told[a] = n
+		}
 		in.open(m.lastSeq)
 	default:
 		panic("bad pool op " + op)
@@ -412,6 +422,9 @@ func (in *poolInst) commit(names []string) {
 	m.commitCnt++
 	for _, n := range names {
 		t := poolTxs[n]
+		if m.held[t.acct][t.nonce] == n && t.nonce+1 > m.told[t.acct] {
+			m.told[t.acct] = t.nonce + 1
+		}
 		st.TxHashList = append(st.TxHashList, t.tx.GetHash())
 		if t.nonce+1 > m.ledger[t.acct] {
 			m.ledger[t.acct] = t.nonce + 1
@@ -446,7 +459,7 @@ func (in *poolInst) key() string {
 	m := in.m
 	var sb strings.Builder
 	sb.WriteString(mempool.VerifDump(in.mp))
-	fmt.Fprintf(&sb, "now=%d ledger=%v batches=%v seq=%d taint=%d", in.now, sortedMap(m.ledger), m.batches, m.lastSeq, len(m.tainted))
+	fmt.Fprintf(&sb, "now=%d ledger=%v batches=%v seq=%d taint=%d told=%v", in.now, sortedMap(m.ledger), m.batches, m.lastSeq, len(m.tainted), sortedMap(m.told))
 	var ad []string
 	for n, f := range m.admitted {
 		ad = append(ad, n+"="+f)
